@@ -31,16 +31,17 @@ KERNEL_1D_PARAMS = {'InverseDynamics': {'Ftip'}, 'ForwardDynamics': {'Ftip'}, 'E
 
 
 LEN0 = ('call', 'len', (('p', 0),), ())
+LEN0S = (LEN0, ('call', 'len', (('ext', 'n'),), ()))      # len(thetalist): by name, or by its contract extent (N42)
 
 
 def zeros_n(t):
     """the array  j -> 0  of length len(arg0)  ([0] * n, or a comprehension)"""
-    return isinstance(t, tuple) and t[0] == 'lam' and t[2] == LEN0 and is_num(t[3], 0)
+    return isinstance(t, tuple) and t[0] == 'lam' and t[2] in LEN0S and is_num(t[3], 0)
 
 
 def unit_n(t, iv):
     """the array  j -> (1 if j == i else 0)  of length len(arg0)"""
-    if not (isinstance(t, tuple) and t[0] == 'lam' and t[2] == LEN0):
+    if not (isinstance(t, tuple) and t[0] == 'lam' and t[2] in LEN0S):
         return False
     b = t[3]
     if not (b[0] == 'ite' and b[1][0] == 'cmp' and {b[1][2], b[1][3]} == {('bv', t[1]), iv}):
@@ -83,7 +84,7 @@ def check(model, rep):
             unit = a[2]
             ok_unit = unit_n(unit, ('iv', loop[1]))
             ok = a[0] == ('p', 0) and zeros_n(a[1]) and ok_unit and zeros_k(a[3], 3) and zeros_k(a[4], 6) and a[5:] == (('p', 1), ('p', 2), ('p', 3))
-            ok = ok and loop[2] == ('for', ('call', 'range', (('call', 'len', (('p', 0),), ()),), ()))
+            ok = ok and loop[2][0] == 'for' and loop[2][1][:2] == ('call', 'range') and loop[2][1][2] in tuple((x_,) for x_ in LEN0S)
     rep.ob('R08.1', F('MassMatrix'), 'column i = ID(q, 0, e_i, g=0, F=0)', ok, msg)
     table = (('VelQuadraticForces', lambda a: a[0] == ('p', 0) and a[1] == ('p', 1) and zeros_n(a[2]) and zeros_k(a[3], 3) and zeros_k(a[4], 6) and a[5:] == (('p', 2), ('p', 3), ('p', 4)),
               'ID(q, qd, 0, g=0, F=0)'),
